@@ -18,6 +18,8 @@ CORRESPONDENCES = {
     "twin": {"sub": "twin", "cases": {"quick": 48, "thorough": 600}, "shards": {"quick": 8, "thorough": 16}},
     # K-pop: the real AlgoContext driven directly; the whole ranked population compared with the L5 model after every operation
     "pop": {"sub": "pop", "cases": {"quick": 160, "thorough": 4000}, "shards": {"quick": 8, "thorough": 16}},
+    # K-run: whole runs through sync_launch::launch (threaded and current-thread launcher) with generated criteria lists vs the launch-layer model
+    "run": {"sub": "run", "cases": {"quick": 240, "thorough": 6000}, "shards": {"quick": 8, "thorough": 16}},
     "ctl": {"sub": "ctl", "cases": {"quick": 1500, "thorough": 40000}, "shards": {"quick": 4, "thorough": 16}},
 }
 
@@ -88,7 +90,7 @@ PROPS = {
         "modules": ["CambrianModel.Props.C14"],
         "theorems": ["Cambrian.Props.C14_counts", "Cambrian.Props.C14_counts_always", "Cambrian.Props.C14_items",
                      "Cambrian.Props.C14_file", "Cambrian.Props.C14_meta_probs", "Cambrian.Props.C14_drained", "Cambrian.Props.C14_drained_step"],
-        "correspondences": ["proc", "ctl", "algo"],
+        "correspondences": ["proc", "ctl", "algo", "run"],
         "trusted": PROC_TRUST + CTL_TRUST + ["float law FL-mul-sign (product of a number >= 0 and a positive finite factor is a number >= 0)"],
         "assumptions": ["partial: 'positive finite mutation scale' is not provable (unclamped product); it is checked on every in-run record and CSV row"],
     },
@@ -96,7 +98,7 @@ PROPS = {
         "modules": ["CambrianModel.Props.C15"],
         "theorems": ["Cambrian.Props.C15_budget_bound", "Cambrian.Props.C15_no_wait_on_nothing", "Cambrian.Props.C15_nospin",
                      "Cambrian.Props.C15_prob_ok", "Cambrian.Props.C15_enum_other", "Cambrian.Props.C15_variant_init"],
-        "correspondences": ["proc", "ctl", "ops", "algo", "spec", "codec"],
+        "correspondences": ["proc", "ctl", "ops", "algo", "spec", "codec", "run"],
         "trusted": PROC_TRUST + CTL_TRUST + ["panic-site inventory (tools/expected_sites.json, lint L1): sites not covered by a theorem are trusted with the reasons given in DESIGN.md"],
         "assumptions": ["each evaluation ends by itself, by its time limit or on the abort request", "float laws FL-mean-fin, FL-mul-sign",
                         "partial: memory exhaustion, stack depth, third-party code are outside the model"],
@@ -106,7 +108,7 @@ PROPS = {
         "theorems": ["Cambrian.Props.C16_argv", "Cambrian.Props.C16_argv_last_two", "Cambrian.Props.C16_classify", "Cambrian.Props.C16_accept_iff",
                      "Cambrian.Props.C16_invalid_before_start", "Cambrian.Props.C16_outdir_refused", "Cambrian.Props.C16_success",
                      "Cambrian.Props.C16_child_failure", "Cambrian.Props.C16_criteria_conflict", "Cambrian.Props.C16_criteria_budget"],
-        "correspondences": ["proc"],
+        "correspondences": ["proc", "run"],
         "trusted": PROC_TRUST,
         "assumptions": ["partial: the glue (argument parsing, files, spawning) is compared on generated scenarios, not proved"],
     },
@@ -191,14 +193,14 @@ PROPS = {
         "modules": ["CambrianModel.Props.C03"],
         "theorems": ["Cambrian.Props.C03_le", "Cambrian.Props.C03_zero", "Cambrian.Props.C03_starts_eq_pushed",
                      "Cambrian.Props.C03_exact", "Cambrian.Props.C03_exact_report"],
-        "correspondences": ["ctl"],
+        "correspondences": ["ctl", "run"],
         "trusted": CTL_TRUST,
         "assumptions": ["float laws used: none"],
     },
     "C05": {
         "modules": ["CambrianModel.Props.C05"],
         "theorems": ["Cambrian.Props.C05_le", "Cambrian.Props.C05_inflight_seeds_nodup", "Cambrian.Props.C05_exact"],
-        "correspondences": ["ctl", "pop"],
+        "correspondences": ["ctl", "pop", "run"],
         "trusted": CTL_TRUST,
         "assumptions": ["float laws used: none"],
     },
